@@ -119,7 +119,8 @@ Judge ==
 Fidelity ==
    (oEnd # <<>> /\ RunFailed = {}) =>
       \/ (IsVH(cfg) /\ cfg.errMode = "default" /\ ExpectedGate(cfg) # 0)        \* the default encoders' body is not modelled
-      \/ (~diverged /\ cOut = oRaw /\ (cfg.errMode = "custom" => errs = oErrs) /\ logs = oLogs)
+      \* errMode "default": the Validator's own errFunc / logFunc are in use, their calls are not observed
+      \/ (~diverged /\ cOut = oRaw /\ (cfg.errMode = "custom" => errs = oErrs /\ logs = oLogs))
       \/ CSVWrite("%1$s", <<ToJson([case |-> caseIdx, diverged |-> diverged, model |-> cOut,
                                      observed |-> oRaw, mlogs |-> logs, ologs |-> oLogs])>>,
                   "fidelity.ndjson")
